@@ -131,6 +131,16 @@ def check(ctx):
                 ctx.violation('R4.enabled_once', where, 'enabled_channels is modified inside the per-call loop')
             else:
                 ctx.holds('R4.enabled_once', where, 'enabled_channels is built once per iteration')
+            # the channel handed to the map / stored in the point is the selector's output
+            ch = e['args'][0]
+            if isinstance(ch, tuple) and ch[0] in ('upper_bound', 'lower_bound') and \
+                    isinstance(ch[1], tuple) and ch[1][0] == 'havoc':
+                ctx.holds('R4.channel_from_selector', '%s:multi_channel_iteration' % e['where'],
+                          'the channel passed to the map is the selector output for this call')
+            else:
+                ctx.violation('R4.channel_from_selector', '%s:multi_channel_iteration' % e['where'],
+                              'the channel passed to the map is not the selector output',
+                              {'channel': T.pretty(ch)[:300]})
             # the selector is built from the same weight vector
             sel_loops = [l for l in s.loops if 'discrete_distribution' in l.func.qualname]
             if len(sel_loops) != 1:
@@ -142,16 +152,6 @@ def check(ctx):
             else:
                 ctx.violation('R4.same_vector', where, 'the channel selector is not built from the whole '
                               'channel_weights vector', {'cumulative_sums_of': T.pretty(u['init'])[:300]})
-            # the channel handed to the map / stored in the point is the selector's output
-            ch = e['args'][0]
-            if isinstance(ch, tuple) and ch[0] in ('upper_bound', 'lower_bound') and \
-                    isinstance(ch[1], tuple) and ch[1][0] == 'havoc':
-                ctx.holds('R4.channel_from_selector', '%s:multi_channel_iteration' % e['where'],
-                          'the channel passed to the map is the selector output for this call')
-            else:
-                ctx.violation('R4.channel_from_selector', '%s:multi_channel_iteration' % e['where'],
-                              'the channel passed to the map is not the selector output',
-                              {'channel': T.pretty(ch)[:300]})
         ctx.guard('R4', fsite(f), r4)
     ctx.count('multi_channel_iteration instantiations', len(ks), 2)
     # the canonical number of the selection must be drawn in the numeric type T with T's precision:
